@@ -54,7 +54,7 @@ Lemma arch_at_structure w w' : structure w' = structure w -> forall ai a, arch_a
   exists a', arch_at w' ai = Some a' /\ a_comps a' = a_comps a /\ map rshape (a_rows a') = map rshape (a_rows a) /\
              a_ins a' = a_ins a /\ a_rem a' = a_rem a.
 Proof.
-  unfold structure. intros H ai a Ha. inversion H as [[He Hc Hsh Hn Hb]]. unfold arch_at, slab_get in *.
+  unfold structure. intros H ai a Ha. inversion H as [[Hcb He Hc Hsh Hn Hb]]. unfold arch_at, slab_get in *.
   destruct (nget (sl_entries (w_archs w)) ai) as [[a0|]|] eqn:Hg; try discriminate. inversion Ha; subst a0.
   destruct (shape_occ _ _ Hsh _ _ Hg) as (a' & Hg' & Es). rewrite Hg'. exists a'. split; [reflexivity|].
   cbn [ashape] in Es. inversion Es. auto.
@@ -62,7 +62,7 @@ Qed.
 
 Theorem WInv_structure w w' : structure w' = structure w -> WInv w -> WInv w'.
 Proof.
-  intros H (Hst & Hg & H0). pose proof H as H'. unfold structure in H'. inversion H' as [[He Hc Hsh Hn Hb]].
+  intros H (Hst & Hg & H0). pose proof H as H'. unfold structure in H'. inversion H' as [[Hcby He Hc Hsh Hn Hb]].
   assert (Hfw := arch_at_structure w w' H). assert (Hbw := arch_at_structure w' w (eq_sym H)).
   split; [|split].
   - destruct Hst as (Hsm & Hl & Hr). unfold StoreInv. rewrite He. split; [exact Hsm|]. split.
